@@ -110,6 +110,7 @@ type bp struct {
 	fieldLB   map[fieldKey]int64
 	retSum    map[*ssa.Function][]retFact
 	nilPost   map[*ssa.Function][]nilPost
+	nilLen    map[*ssa.Function]map[int]int64
 }
 
 func newBP(p *Prog) *bp {
